@@ -1,0 +1,105 @@
+//go:build verif
+
+package crdt
+
+// Machine-checked contracts for the CRDT types (properties C38, C39).
+// Comment-only file: it adds no code to the package. Read by /verif/govc.
+//
+// Two layers: (1) each Merge/Clone/mutator is proved against a pointwise
+// specification function over the abstract state; (2) the join laws
+// (commutative, associative, idempotent, inflationary) are lemmas about those
+// specification functions only.
+
+//@ property C38
+
+// ---- Flag -------------------------------------------------------------------
+//@ spec func flag_join(a bool, b bool) bool = a || b
+
+//@ func (*Flag).Merge(x, other)
+//@   ensures joins: is(other, *Flag) ==> is(result, *Flag) && result.(*Flag).enabled == flag_join(x.enabled, other.(*Flag).enabled)
+//@   ensures fresh-result: is(other, *Flag) ==> fresh(result.(*Flag))
+//@   modifies nothing
+
+//@ func (*Flag).Clone(x)
+//@   ensures same-value: is(result, *Flag) && result.(*Flag).enabled == x.enabled && result.(*Flag).dirty == x.dirty && fresh(result.(*Flag))
+//@   modifies nothing
+
+//@ lemma flag-commutative: forall a bool, b bool :: flag_join(a, b) == flag_join(b, a)
+//@ lemma flag-associative: forall a bool, b bool, c bool :: flag_join(flag_join(a, b), c) == flag_join(a, flag_join(b, c))
+//@ lemma flag-idempotent: forall a bool :: flag_join(a, a) == a
+//@ lemma flag-inflationary: forall a bool, b bool :: a ==> flag_join(a, b)
+
+// ---- LWWRegister --------------------------------------------------------------
+// other wins iff its (timestamp, nodeID) is lexicographically larger
+//@ spec func lww_other_wins(ts int64, node string, ots int64, onode string) bool = ots > ts || (ots == ts && onode > node)
+
+//@ func (*LWWRegister).Merge(r, other)
+//@   arith bv
+//@   ensures picks-larger-stamp: is(other, *LWWRegister) ==> is(result, *LWWRegister) && result.(*LWWRegister).timestamp == ite(lww_other_wins(r.timestamp, r.nodeID, other.(*LWWRegister).timestamp, other.(*LWWRegister).nodeID), other.(*LWWRegister).timestamp, r.timestamp)
+//@   ensures picks-winner-node: is(other, *LWWRegister) ==> result.(*LWWRegister).nodeID == ite(lww_other_wins(r.timestamp, r.nodeID, other.(*LWWRegister).timestamp, other.(*LWWRegister).nodeID), other.(*LWWRegister).nodeID, r.nodeID)
+//@   ensures picks-winner-value: is(other, *LWWRegister) ==> result.(*LWWRegister).value == ite(lww_other_wins(r.timestamp, r.nodeID, other.(*LWWRegister).timestamp, other.(*LWWRegister).nodeID), other.(*LWWRegister).value, r.value)
+//@   ensures fresh-result: is(other, *LWWRegister) ==> fresh(result.(*LWWRegister))
+//@   modifies nothing
+
+//@ func (*LWWRegister).Clone(r)
+//@   ensures same-value: is(result, *LWWRegister) && result.(*LWWRegister).timestamp == r.timestamp && result.(*LWWRegister).nodeID == r.nodeID && result.(*LWWRegister).value == r.value && fresh(result.(*LWWRegister))
+//@   modifies nothing
+
+// the merged stamp is the lexicographic maximum: a join on (timestamp, nodeID)
+//@ spec func lww_ts(ts int64, node string, ots int64, onode string) int64 = ite(lww_other_wins(ts, node, ots, onode), ots, ts)
+//@ spec func lww_node(ts int64, node string, ots int64, onode string) string = ite(lww_other_wins(ts, node, ots, onode), onode, node)
+//@ lemma lww-stamp-commutative: forall t1 int64, n1 string, t2 int64, n2 string :: lww_ts(t1, n1, t2, n2) == lww_ts(t2, n2, t1, n1) && lww_node(t1, n1, t2, n2) == lww_node(t2, n2, t1, n1)
+//@ lemma lww-stamp-idempotent: forall t1 int64, n1 string :: lww_ts(t1, n1, t1, n1) == t1 && lww_node(t1, n1, t1, n1) == n1
+//@ lemma lww-stamp-associative: forall t1 int64, n1 string, t2 int64, n2 string, t3 int64, n3 string :: lww_ts(lww_ts(t1, n1, t2, n2), lww_node(t1, n1, t2, n2), t3, n3) == lww_ts(t1, n1, lww_ts(t2, n2, t3, n3), lww_node(t2, n2, t3, n3)) && lww_node(lww_ts(t1, n1, t2, n2), lww_node(t1, n1, t2, n2), t3, n3) == lww_node(t1, n1, lww_ts(t2, n2, t3, n3), lww_node(t2, n2, t3, n3))
+//@ lemma lww-stamp-inflationary: forall t1 int64, n1 string, t2 int64, n2 string :: !lww_other_wins(lww_ts(t1, n1, t2, n2), lww_node(t1, n1, t2, n2), t1, n1)
+// the value follows the winning stamp; it is a function of the stamp when every write has a unique (timestamp, nodeID)
+//@ lemma lww-value-commutative-under-unique-writes: forall t1 int64, n1 string, v1 int, t2 int64, n2 string, v2 int :: implies(t1 == t2 && n1 == n2, v1 == v2) ==> ite(lww_other_wins(t1, n1, t2, n2), v2, v1) == ite(lww_other_wins(t2, n2, t1, n1), v1, v2)
+//@ lemma lww-value-commutative: forall t1 int64, n1 string, v1 int, t2 int64, n2 string, v2 int :: ite(lww_other_wins(t1, n1, t2, n2), v2, v1) == ite(lww_other_wins(t2, n2, t1, n1), v1, v2)
+
+// ---- GCounter -----------------------------------------------------------------
+// pointwise join of two per-node slots (h = present, v = count)
+//@ spec func gc_has(hc bool, ho bool) bool = hc || ho
+//@ spec func gc_val(hc bool, vc uint64, ho bool, vo uint64) uint64 = ite(ho && (!hc || vo > vc), vo, vc)
+
+//@ func (*GCounter).Clone(c)
+//@   requires c.state != nil && c.delta != nil
+//@   ensures is-gcounter: is(result, *GCounter) && fresh(result.(*GCounter)) && fresh(result.(*GCounter).state) && fresh(result.(*GCounter).delta) && result.(*GCounter).state != result.(*GCounter).delta
+//@   ensures same-state: forall n string :: has(result.(*GCounter).state, n) == has(c.state, n) && result.(*GCounter).state[n] == c.state[n]
+//@   ensures same-delta: forall n string :: has(result.(*GCounter).delta, n) == has(c.delta, n) && result.(*GCounter).delta[n] == c.delta[n]
+//@   modifies nothing
+
+//@ func (*GCounter).Merge(c, other)
+//@   requires c.state != nil && c.delta != nil
+//@   requires is(other, *GCounter) ==> other.(*GCounter).state != nil
+//@   loop 1 invariant merged-is-fresh: fresh(merged) && fresh(merged.state) && merged.state != nil
+//@   loop 1 invariant inputs-untouched: old_objects_unchanged(c.state)
+//@   loop 1 invariant visited-are-remote-keys: forall n string :: visited(n) ==> has(other.(*GCounter).state, n)
+//@   loop 1 invariant visited-are-joined: forall n string :: visited(n) ==> has(merged.state, n) && merged.state[n] == gc_val(has(c.state, n), c.state[n], true, other.(*GCounter).state[n])
+//@   loop 1 invariant others-are-copies: forall n string :: !visited(n) ==> has(merged.state, n) == has(c.state, n) && merged.state[n] == c.state[n]
+//@   ensures is-gcounter: is(other, *GCounter) ==> is(result, *GCounter) && fresh(result.(*GCounter)) && fresh(result.(*GCounter).state)
+//@   ensures joins-domain: is(other, *GCounter) ==> forall n string :: has(result.(*GCounter).state, n) == gc_has(has(c.state, n), has(other.(*GCounter).state, n))
+//@   ensures joins-values: is(other, *GCounter) ==> forall n string :: result.(*GCounter).state[n] == gc_val(has(c.state, n), c.state[n], has(other.(*GCounter).state, n), other.(*GCounter).state[n])
+//@   modifies nothing
+
+//@ lemma gcounter-commutative: forall h1 bool, v1 uint64, h2 bool, v2 uint64 :: implies(!h1, v1 == 0) && implies(!h2, v2 == 0) ==> gc_val(h1, v1, h2, v2) == gc_val(h2, v2, h1, v1) && gc_has(h1, h2) == gc_has(h2, h1)
+//@ lemma gcounter-idempotent: forall h1 bool, v1 uint64 :: gc_val(h1, v1, h1, v1) == v1 && gc_has(h1, h1) == h1
+//@ lemma gcounter-associative: forall h1 bool, v1 uint64, h2 bool, v2 uint64, h3 bool, v3 uint64 :: implies(!h1, v1 == 0) && implies(!h2, v2 == 0) && implies(!h3, v3 == 0) ==> gc_val(gc_has(h1, h2), gc_val(h1, v1, h2, v2), h3, v3) == gc_val(h1, v1, gc_has(h2, h3), gc_val(h2, v2, h3, v3))
+//@ lemma gcounter-inflationary: forall h1 bool, v1 uint64, h2 bool, v2 uint64 :: implies(!h1, v1 == 0) ==> gc_val(h1, v1, h2, v2) >= v1 && implies(h1, gc_has(h1, h2))
+
+// ---- PNCounter (two GCounters, component-wise) ---------------------------------
+//@ spec func pn_wf(c *PNCounter) bool = c.increments != nil && c.decrements != nil && c.increments.state != nil && c.increments.delta != nil && c.decrements.state != nil && c.decrements.delta != nil
+
+//@ func (*PNCounter).Merge(c, other)
+//@   requires pn_wf(c)
+//@   requires is(other, *PNCounter) ==> pn_wf(other.(*PNCounter))
+//@   ensures is-pncounter: is(other, *PNCounter) ==> is(result, *PNCounter) && fresh(result.(*PNCounter))
+//@   ensures joins-increments: is(other, *PNCounter) ==> forall n string :: has(result.(*PNCounter).increments.state, n) == gc_has(has(c.increments.state, n), has(other.(*PNCounter).increments.state, n)) && result.(*PNCounter).increments.state[n] == gc_val(has(c.increments.state, n), c.increments.state[n], has(other.(*PNCounter).increments.state, n), other.(*PNCounter).increments.state[n])
+//@   ensures joins-decrements: is(other, *PNCounter) ==> forall n string :: has(result.(*PNCounter).decrements.state, n) == gc_has(has(c.decrements.state, n), has(other.(*PNCounter).decrements.state, n)) && result.(*PNCounter).decrements.state[n] == gc_val(has(c.decrements.state, n), c.decrements.state[n], has(other.(*PNCounter).decrements.state, n), other.(*PNCounter).decrements.state[n])
+//@   modifies nothing
+
+//@ func (*PNCounter).Clone(c)
+//@   requires pn_wf(c)
+//@   ensures is-pncounter: is(result, *PNCounter) && fresh(result.(*PNCounter)) && pn_wf(result.(*PNCounter))
+//@   ensures same-increments: forall n string :: has(result.(*PNCounter).increments.state, n) == has(c.increments.state, n) && result.(*PNCounter).increments.state[n] == c.increments.state[n]
+//@   ensures same-decrements: forall n string :: has(result.(*PNCounter).decrements.state, n) == has(c.decrements.state, n) && result.(*PNCounter).decrements.state[n] == c.decrements.state[n]
+//@   modifies nothing
